@@ -57,6 +57,13 @@ def cases(tier):
         if tier == "quick" and (nf + hq + abs(pid)) % 2 != 0:
             continue
         out.append(dict(kind="lo_heavy_cc", pid=pid, nf=nf, hq=hq, sf=kind))
+    # massive-scheme limit FFN0: LO is the massless parton model with the light quarks and the tagged heavy quark as incoming partons
+    for proc, pid, nfff, flav, kind in itertools.product(["EM", "NC", "CC"], PROJ, [3, 4], ["light", "charm", "bottom", "top", "total"], ["F2", "F3", "FL"]):
+        if proc == "EM" and kind == "F3":
+            continue
+        if tier == "quick" and (nfff + abs(pid) + len(flav) + len(kind) + len(proc)) % 3 and not (proc == "CC" and nfff == 3 and flav in ("bottom", "total") and pid == 11):
+            continue
+        out.append(dict(kind="lo_ffn0", process=proc, pid=pid, nf=nfff, flav=flav, sf=kind))
     for pid in PROJ:
         for mode in ("phph", "phZ", "ZZ", "WW"):
             out.append(dict(kind="propagator", pid=pid, mode=mode))
@@ -202,6 +209,41 @@ def pairs_for(case, P, Q2):
         out.append(("LO[21]", tot.get(21, 0), 0))
         extra = [p for p in tot if abs(p) > nf and p != 21]
         out.append(("LO-no-inactive-partons", [p for p in extra if not _is_zero(tot[p])] == [], True))
+    elif kind == "lo_ffn0":
+        proc, pid, nfff, flav, sf = case["process"], case["pid"], case["nf"], case["flav"], case["sf"]
+        pv = sf in ("F3", "gL", "g4")
+        ks = cm.run_combiner(P, obs=f"{sf}_{flav}", process=proc, pid=pid, Q2=Q2, scheme="FFN0", nf=nfff,
+                             ZMq=tuple(q <= nfff for q in (4, 5, 6)), pto=0)
+        tot = _lo_sum(ks)
+        tagged = {"light": [None], "charm": [4], "bottom": [5], "top": [6], "total": [None, 4, 5, 6]}[flav]
+        tagged = [h for h in tagged if h is None or h > nfff]  # flavours <= NfFF are part of 'light' in this scheme
+        if flav != "total" and not tagged:
+            tagged = None  # e.g. F2_charm with NfFF=4: the zero-mass single-flavour piece (checked by lo_heavylight / C07)
+        if tagged is not None:
+            for q in range(1, 7):
+                for p in (q, -q):
+                    ref = 0
+                    for h in tagged:
+                        if not (q <= nfff or q == h):
+                            continue  # incoming partons: the light quarks and the tagged heavy quark itself
+                        if proc == "CC":
+                            mask = MASKS_LIGHT[nfff] if h is None else "duscbt"[h - 1]
+                            ref = ref + ew.cc_lo_weight(p, pv, pid, mask, V2)
+                        else:
+                            if (h is None) != (q <= nfff):
+                                continue  # NC: flavour diagonal -- light quarks in 'light', the heavy quark in its own observable
+                            if abs(pid) == 11:
+                                r = ew.nc_weight(q, pv, proc, pid, Q2, MZ2, s2, pol, dl)
+                                ref = ref + (-r if (pv and p < 0) else r)
+                            else:
+                                ref = None
+                                break
+                    if ref is None:
+                        continue
+                    if sf == "FL":
+                        ref = 0
+                    out.append((f"LO[{p}]", tot.get(p, 0), ref))
+            out.append(("LO[21]", tot.get(21, 0), 0))
     elif kind == "propagator":
         cc = cm.make_coupling(P, "NC", case["pid"])
         eta = ew.eta_gamma_z(Q2, MZ2, s2, dl)
@@ -312,7 +354,7 @@ def run(chk, only=None):
     for case in allc:
         if only and only not in case["kind"]:
             continue
-        with Ctx(chk.seed) as ctx, cm.fixed_nf():
+        with Ctx(chk.seed) as ctx, cm.fixed_nf(), cm.generic_drop_empty():
             cname = ":".join(f"{k}={v}" for k, v in case.items())
 
             def body(case=case):
